@@ -699,6 +699,16 @@ class InterpBase:
             return [self.getattr(obj, f_[0], env, node) for f_ in self.P.dataclass_fields(obj.ty)]
         return None
 
+    def slice_items(self, it, env, node, limit=16):
+        """octets of a slice of constant extent, as index reads of the slice (None if the extent is not a small constant)"""
+        if it.k != "slice" or is_const(it.a[2], None):
+            return None
+        from .linear import linearize
+        ext = linearize(it.a[2]) - linearize(it.a[1])
+        if not ext.is_const() or not (0 <= ext.c <= limit):
+            return None
+        return [self.do_index(it, C(i_), env, node) for i_ in range(ext.c)]
+
     def do_index(self, base, i, env, node):
         nt = self.namedtuple_items(base, env, node)
         if nt is not None:
@@ -801,6 +811,8 @@ class InterpBase:
 
     def ev_Attribute(self, e, env, mod, fn):
         base = self.ev(e.value, env, mod, fn)
+        if env.dead:
+            return NONE         # the base expression always raises: the attribute is never read
         return self.getattr(base, e.attr, env, e, fn)
 
     def ev_Call(self, e, env, mod, fn):
